@@ -9,7 +9,7 @@ import common as C
 from props import qtycommon as Q, c05
 
 ID = "C09"
-COQ_TARGETS = ["Properties/C09.vo", "GenFacts/ResolutionFacts.vo"]
+COQ_TARGETS = ["Properties/C09.vo", "GenFacts/ResolutionFacts.vo", "GenFacts/DispatchSrcCmpFacts.vo"]
 EXTRA_OBLIGATIONS = ["resolution_facts_true"]
 MODEL_TARGETS = ["Model/Cmp.vo"]
 OPS = ["<", "<=", "==", "!=", ">", ">="]
